@@ -1,6 +1,7 @@
 package worlds
 
 import (
+	"fmt"
 	"math"
 	"sort"
 
@@ -66,11 +67,16 @@ func genC06(c *w1Case, r *simrt.Rng, thorough bool) {
 	c.d = baseDesc(r, o)
 	// hats among the axes
 	if r.Chance(0.3) {
-		a := &c.d.Mappings[0].Analog[0].Axes[0]
-		a.Min, a.Max, a.DZCenter = -1, 1, false
-		for mi := 1; mi < len(c.d.Mappings); mi++ {
-			b := &c.d.Mappings[mi].Analog[0].Axes[0]
-			b.Min, b.Max, b.DZCenter = -1, 1, false
+		code := c.d.Mappings[0].Analog[0].Axes[0].Code
+		for mi := range c.d.Mappings {
+			for si := range c.d.Mappings[mi].Analog {
+				for ai := range c.d.Mappings[mi].Analog[si].Axes {
+					b := &c.d.Mappings[mi].Analog[si].Axes[ai]
+					if b.Code == code {
+						b.Min, b.Max, b.DZCenter = -1, 1, false
+					}
+				}
+			}
 		}
 	}
 	shareRanges(c.d)
@@ -117,27 +123,23 @@ func genC06(c *w1Case, r *simrt.Rng, thorough bool) {
 	c.script = g.out
 }
 
-// shareRanges makes every mapping see the axis ranges of mapping 0 (one physical device).
+// shareRanges makes every mapping see the same physical range for the same axis code (one physical
+// device): the first occurrence decides; deadzone_at_center only stays on axes with minimum 0.
 func shareRanges(d *model.Desc) {
-	for mi := 1; mi < len(d.Mappings); mi++ {
+	type rg struct{ min, max int32 }
+	first := map[uint16]rg{}
+	for mi := range d.Mappings {
 		for si := range d.Mappings[mi].Analog {
 			for ai := range d.Mappings[mi].Analog[si].Axes {
 				a := &d.Mappings[mi].Analog[si].Axes[ai]
-				if si < len(d.Mappings[0].Analog) && ai < len(d.Mappings[0].Analog[si].Axes) {
-					b := d.Mappings[0].Analog[si].Axes[ai]
-					a.Min, a.Max = b.Min, b.Max
-					if a.Min != 0 {
-						a.DZCenter = false
-					}
+				if f, ok := first[a.Code]; ok {
+					a.Min, a.Max = f.min, f.max
+				} else {
+					first[a.Code] = rg{a.Min, a.Max}
 				}
-			}
-		}
-	}
-	for si := range d.Mappings[0].Analog {
-		for ai := range d.Mappings[0].Analog[si].Axes {
-			a := &d.Mappings[0].Analog[si].Axes[ai]
-			if a.Min != 0 {
-				a.DZCenter = false
+				if a.Min != 0 {
+					a.DZCenter = false
+				}
 			}
 		}
 	}
@@ -193,7 +195,7 @@ func genC07(c *w1Case, r *simrt.Rng) {
 func genC08(c *w1Case, r *simrt.Rng) {
 	kinds := [][]string{{"key"}, {"key1"}, {"key", "key1"}}[r.Intn(3)]
 	o := genOpts{nKeys: [2]int{1, 3}, nMaps: [2]int{1, 1}, notePool: []int{30, 90}, actions: []string{"octave_up", "octave_down", "semitone_up", "semitone_down", "channel_up", "channel_down"}, exitLen: -1,
-		defaults: r.Chance(0.5), axes: r.Range(1, 3), axisKinds: kinds, handlers: 1}
+		defaults: r.Chance(0.5), axes: r.Range(1, 3), axisKinds: kinds, handlers: 1, edgeNotes: r.Chance(0.4)}
 	c.d = baseDesc(r, o)
 	if c.d.Octave > 1 || c.d.Octave < -1 {
 		c.d.Octave = 0
@@ -235,10 +237,63 @@ func genC05(c *w1Case, r *simrt.Rng) {
 	c.monitor = true
 	acts := append([]string{"panic", "cc_learning"}, transposeActions...)
 	o := genOpts{nKeys: [2]int{2, 6}, nMaps: [2]int{1, 2}, notePool: []int{0, 1, 60, 126, 127}, offsets: true, actions: acts, exitLen: -1, defaults: true,
-		unmapProb: 0.2, remapProb: 0.3, axes: r.Range(0, 3), axisKinds: []string{"cc", "cc2", "pitch_bend", "key", "key1"}, handlers: 1}
+		unmapProb: 0.2, remapProb: 0.3, axes: r.Range(0, 3), axisKinds: []string{"cc", "cc2", "pitch_bend", "key", "key1"}, handlers: 1, edgeNotes: true}
 	c.d = baseDesc(r, o)
 	shareRanges(c.d)
 	d := c.d
+	// half of the runs carry exactly one value outside its MIDI range: the parser must reject it (the run
+	// is then skipped); if it lets it through, the byte monitor sees what the device makes of it
+	bad := -1
+	if r.Chance(0.5) {
+		bad = r.Intn(9)
+	}
+	badVals := []int{128, 129, 200, 255, 256, 300, -1, 1000}
+	bv := badVals[r.Intn(len(badVals))]
+	switch bad {
+	case 0:
+		d.Velocity, d.HasVel = bv, true
+	case 1:
+		d.Channel, d.HasChan = []int{0, 17, 255, 256, -1, 32}[r.Intn(6)], true
+	}
+	injected := bad < 2
+	for mi := range d.Mappings {
+		for si := range d.Mappings[mi].Keys {
+			for ki := range d.Mappings[mi].Keys[si].Keys {
+				k := &d.Mappings[mi].Keys[si].Keys[ki]
+				if !injected && bad == 2 {
+					k.Note, k.NoteText, injected = bv, fmt.Sprint(bv), true
+				}
+				if !injected && bad == 3 {
+					k.Offset, k.HasOff, injected = []int{16, 17, 255, 256, -1}[r.Intn(5)], true, true
+				}
+			}
+		}
+		for si := range d.Mappings[mi].Analog {
+			for ai := range d.Mappings[mi].Analog[si].Axes {
+				a := &d.Mappings[mi].Analog[si].Axes[ai]
+				if injected {
+					continue
+				}
+				switch {
+				case bad == 4 && a.CC != nil:
+					a.CC, injected = ip([]int{120, 127, 128, 200, 255, 256, -1}[r.Intn(7)]), true
+				case bad == 5 && a.CCNeg != nil:
+					a.CCNeg, injected = ip([]int{120, 127, 128, 200, 255, 256, -1}[r.Intn(7)]), true
+				case bad == 6 && a.Note != nil:
+					a.Note, injected = ip(bv), true
+				case bad == 7 && a.NoteNeg != nil:
+					a.NoteNeg, injected = ip(bv), true
+				case bad == 8:
+					if r.Chance(0.5) {
+						a.HasOff, a.Off = true, []int{16, 17, 255, 256, -1}[r.Intn(5)]
+					} else {
+						a.HasOffNeg, a.OffNeg = true, []int{16, 17, 255, 256, -1}[r.Intn(5)]
+					}
+					injected = true
+				}
+			}
+		}
+	}
 	switch r.Intn(8) {
 	case 0:
 		d.HasChan = false
